@@ -44,7 +44,8 @@ def act_term(a):
 def op_line(o):
     k = o[0]
     if k == "call":
-        return f"call {o[1]} {tmo_s(o[2])}"
+        # o[3] (optional): "" ActorRef::call, "d" DerivedActorRef::call, "m" call!/call_t! macros
+        return f"{o[3] if len(o) > 3 else ''}call {o[1]} {tmo_s(o[2])}"
     if k == "fwd":
         return f"fwd {o[1]} {o[2]} {tmo_s(o[3])}"
     if k == "multi":
@@ -138,7 +139,8 @@ class Gen:
             a = r.choice(callees)
             tmo = r.choice(TMOS)
             self.new_call(a, tmo)
-            self.emit(("call", a, tmo), 0.6)
+            variants = ["", "", "d"] + (["m"] if tmo is None or tmo % MS == 0 else [])
+            self.emit(("call", a, tmo, r.choice(variants)), 0.6)
         elif x < 0.36:
             if self.sink is None:
                 self.sink = self.n
@@ -261,7 +263,10 @@ def gen_systematic():
                     ops += [("call", 0, tmo), ("settle",), ("adv", 2 * MS), ("adv", MS), ("adv", MS)]
                 for settle_between in (True, False):
                     o2 = [o for o in ops if settle_between or o[0] != "settle"]
-                    cases.append((1, o2 + [("adv", 4 * MS)] if tmo else o2))
+                    o2 = o2 + [("adv", 4 * MS)] if tmo else o2
+                    cases.append((1, o2))
+                    for variant in ("d", "m"):
+                        cases.append((1, [(o[0], o[1], o[2], variant) if o[0] == "call" else o for o in o2]))
     # two concurrent callers, replies in both orders, distinguishable values
     for order in ((0, 1), (1, 0)):
         for store in (False, True):
